@@ -747,6 +747,47 @@ def _check_proto(run, world, folder, mod, c):
                    guarded, "an unknown code byte raises ValueError out of "
                    "data_received", where(mod, n))
     run.floor("%s enum conversions in _process_byte" % c.name, n_enum, 1)
+    # a code byte the protocol does not define is an unknown frame type: the
+    # frame is dropped, nothing is delivered for it
+    for mname, (kind_, mfn) in sorted(c.methods.items()):
+        if not (mname.startswith("_process") or mname == "data_received"):
+            continue
+        mdefs = astq._defs(mfn)
+
+        def conv(call, mdefs=mdefs):
+            f_ = call.func
+            if isinstance(f_, ast.Name) and f_.id in mdefs:
+                f_ = mdefs[f_.id]
+            try:
+                k_ = world.resolve_class(SER, f_)
+            except Exception:
+                k_ = None
+            return k_ is not None and folder.is_enum(k_)
+        for t_ in ast.walk(mfn):
+            if not isinstance(t_, ast.Try):
+                continue
+            if not any(isinstance(x_, ast.Call) and isinstance(
+                    x_.func, (ast.Name, ast.Attribute)) and conv(x_)
+                    for b_ in t_.body for x_ in ast.walk(b_)):
+                continue
+            for h_ in t_.handlers:
+                names_ = [] if h_.type is None else [
+                    unparse(e_) for e_ in (h_.type.elts if isinstance(
+                        h_.type, ast.Tuple) else [h_.type])]
+                if h_.type is not None and "ValueError" not in names_:
+                    continue
+                deliver = [unparse(x_.func) for b_ in h_.body
+                           for x_ in ast.walk(b_) if isinstance(
+                               x_, ast.Call) and isinstance(
+                                   x_.func, ast.Attribute) and (
+                    x_.func.attr in ("put_nowait", "distribute", "put") or
+                    (x_.func.attr.startswith("_process") and unparse(
+                        x_.func.value) == "self"))]
+                run.ob("R-FSM-DISPATCH", "%s.%s#unknown-code-delivers-"
+                       "nothing" % (P, mname), not deliver,
+                       "the handler for a code byte outside the enum calls "
+                       "%s: a frame of unknown type must be dropped, not "
+                       "turned into an item" % deliver, where(mod, h_))
     # frames built from received bytes: Frame(bits, data) raises ValueError
     # for a length that is not positive, so such a construction is either
     # under a test of that length or inside a handler that catches it
@@ -797,7 +838,44 @@ def _check_proto(run, world, folder, mod, c):
                         q_ = nxt_ if isinstance(nxt_, ast.If) and q_ in \
                             nxt_.orelse else None
                 child, p_ = p_, parent_.get(id(p_))
-            if not (caught or tested):
+            decided_short = False
+            params_ = {a_.arg for a_ in mfn.args.args}
+            if tested and not caught and not (set(lens) & params_):
+                # (for a parameter the lengths are what the callers pass -
+                # fixed-size slices of the buffer - and the structural test
+                # below stands)
+                # which lengths actually reach the construction: the path
+                # conditions as formulas in n = len(<bytes>); they must
+                # exclude n = 0 (a test like `n == 1 ... else` does not)
+                from ..pathcond import path_conds
+                from .. import pred as _pred
+                mcfg0 = CFG(mfn, may_raise=explicit_raise_only,
+                            name=P + "." + mname)
+                site0 = [x for x in mcfg0.reachable if x.ast is not None and
+                         x.kind in ("stmt", "test") and any(
+                             y is n for y in ast.walk(x.ast))]
+                Pn = _pred.Parser(_pred.lin_of(
+                    {"len(%s)" % l_: "n" for l_ in lens}))
+
+                def ntree(t_):
+                    try:
+                        return Pn.tree(t_)
+                    except _pred.Unrecognised:
+                        return None
+                if site0:
+                    try:
+                        d0 = path_conds(mcfg0, site0[0], ntree,
+                                        what="R-FSM-ESC")
+                        want0 = Pn.dnf(ast.parse("len(%s) >= 1" % lens[0],
+                                                 mode="eval").body)
+                        nonneg = Pn.dnf(ast.parse(
+                            "len(%s) >= 0" % lens[0], mode="eval").body)
+                        hyp0 = tuple(next(iter(nonneg))) if nonneg else ()
+                        tested = _pred.implies(d0, want0, hyp=hyp0)[0]
+                        decided_short = not tested
+                    except AnalysisError:
+                        pass
+            if not (caught or tested) and not decided_short:
                 # guard clauses: every path to the construction passes a
                 # test of that length
                 from ..pathcond import path_conds
